@@ -40,8 +40,7 @@ theorem dClose_closed (d : DState) :
     · simp; simpa using hc
 
 theorem pollLoop_outcome (ps : List PollEv) :
-    (∃ b, (pollLoop ps).1 = .ok b) ∨ (pollLoop ps).1 = .starved ∨ (pollLoop ps).1 = .oserr ∨
-    (pollLoop ps).1 = .other .notModelled := by
+    (∃ b, (pollLoop ps).1 = .ok b) ∨ (pollLoop ps).1 = .starved ∨ (pollLoop ps).1 = .oserr := by
   induction ps with
   | nil => simp [pollLoop]
   | cons ev rest ih =>
@@ -119,7 +118,7 @@ met EBADF); an `OSError` (select error, refused descriptor, non-EBADF `fileno` e
 NOT necessarily closed; blocked -/
 theorem dPoll_outcome (d : DState) :
     (∃ b, (dPoll d).1 = .ok b) ∨ ((dPoll d).1 = .eof ∧ (dPoll d).2.r.closed = true) ∨
-    (dPoll d).1 = .oserr ∨ (dPoll d).1 = .starved ∨ (dPoll d).1 = .other .notModelled := by
+    (dPoll d).1 = .oserr ∨ (dPoll d).1 = .starved := by
   have hfe : ∀ (e : Nat) (d0 : DState), ((dFilenoErr e d0).1 = .eof ∧ (dFilenoErr e d0).2.r.closed = true) ∨
       (dFilenoErr e d0).1 = .oserr := by
     intro e d0
@@ -146,21 +145,19 @@ theorem dPoll_outcome (d : DState) :
     · split
       · split
         · simp only [dPollLoop]
-          rcases pollLoop_outcome d.pscript with ⟨b, h⟩ | h | h | h
+          rcases pollLoop_outcome d.pscript with ⟨b, h⟩ | h | h
           · exact Or.inl ⟨b, h⟩
-          · exact Or.inr (Or.inr (Or.inr (Or.inl h)))
+          · exact Or.inr (Or.inr (Or.inr h))
           · exact Or.inr (Or.inr (Or.inl h))
-          · exact Or.inr (Or.inr (Or.inr (Or.inr h)))
         · rcases hfe ‹Nat› { d with pscript := ‹List PollEv› } with h | h
           · exact Or.inr (Or.inl h)
           · exact Or.inr (Or.inr (Or.inl h))
       · exact Or.inr (Or.inr (Or.inl rfl))
       · simp only [dPollLoop]
-        rcases pollLoop_outcome d.pscript with ⟨b, h⟩ | h | h | h
+        rcases pollLoop_outcome d.pscript with ⟨b, h⟩ | h | h
         · exact Or.inl ⟨b, h⟩
-        · exact Or.inr (Or.inr (Or.inr (Or.inl h)))
+        · exact Or.inr (Or.inr (Or.inr h))
         · exact Or.inr (Or.inr (Or.inl h))
-        · exact Or.inr (Or.inr (Or.inr (Or.inr h)))
 
 /-! ### `read` on the duplex stream returns only what the one-directional model returns -/
 
